@@ -70,7 +70,7 @@ SPEC = dict(
                 "the released versions never go back (invariant proof, also never from the future); prod_hooks_same_point "
                 "— in production a batch hook and a snapshot hook of count() of the same source are cut at the same point; "
                 "state_carries_to_next_slice / slice_outputs_use_carried_state — slice t+1 sees exactly what slice t "
-                "assigned, slice 0 the initial value, with closed forms for the two corpus bodies; "
+                "assigned, slice 0 the initial value, with closed forms for the corpus bodies; "
                 "simBatchesOk_iff_partition / simSnapsOk_iff / model_snapshots_accepted — the verdict the driver gives on a "
                 "recorded simulator execution (the release schedule read off the observed batches, replayed through the "
                 "batch-hook model runBatches) is exactly the partition clause, the snapshot verdict is exactly 'never back, "
@@ -102,7 +102,7 @@ SPEC = dict(
                 "batch hooks, keyed batch hooks and use::atomic hooks (see C34) are not in the C31 models; the hook "
                 "implementations themselves are tied in C36."),
     trusted_base=["hand-written model of the sliced! macro expansion (pinned text, not translated)",
-                  "hydro_lang emit_core lowering of Batch / DeferTick / CycleSource for the 6 corpus flows (production) and the 5 simulator flows: exercised and diffed, not translated",
+                  "hydro_lang emit_core lowering of Batch / DeferTick / CycleSource for the 7 corpus flows (production) and the 5 simulator flows: exercised and diffed, not translated",
                   "bolero's exhaustive driver enumerates the simulator's decision space (C37)"],
     assumptions=["production code generation: one DFIR tick per slice, a batch is what arrived in that tick",
                  "simulator scenarios: all input is sent before the first tick and the run ends at quiescence (SimReceiver::collect)"],
